@@ -391,3 +391,38 @@ def rule_rig_number_type(ctx):
             ctx.holds("RIGNT", key, f.where(line), "accepts %s, GR writes %s" % (sorted(acc), sorted(written)), nontrivial=True)
     ctx.floor("RIGNT", 2, n, "(RIG readers that test the number type)")
     return n
+
+
+def rule_probe_tag(ctx):
+    """PROBETAG (C15, C09): `if (Hexist(file, T, ref) == SUCCEED) { X->..tag = T'; X->..ref = ref; }` records where the element
+    that was just found lives; T' must be the tag that was probed.  With different constants the record points at an element
+    that was never looked for (a palette of another convention) and the one that exists is ignored."""
+    from .codec import ast_walk, ast_exprs
+    from .facts import calls_in, is_int, int_val, int_name, mem_field
+    prog = ctx.prog
+    n = 0
+    for f in prog.lib_funcs():
+        found = []
+
+        def vis(nn, st):
+            if nn[0] == "if":
+                probes = [c for c in calls_in(nn[1], True) if c[1] == "Hexist" and len(c[3]) >= 2 and is_int(c[3][1])]
+                if probes:
+                    stores = [x for e in ast_exprs(nn[2]) for x in walk(e, True)
+                              if x[0] == "asg" and x[1] == "=" and (mem_field(x[2]) or (0, ""))[1].endswith("tag") and is_int(x[3])]
+                    if stores:
+                        found.append((nn, probes[0], stores))
+            return True
+        ast_walk(f.raw.get("ast"), vis)
+        for k, (nn, p, stores) in enumerate(found):
+            n += 1
+            key = "PROBETAG:%s#%d" % (f.name, k + 1)
+            t = int_val(p[3][1])
+            bad = [s for s in stores if int_val(s[3]) != t]
+            if bad:
+                ctx.violated("PROBETAG", key, f.where(bad[0][4]), "the branch is taken because an element with tag %s exists, but it records `%s`: the element found is ignored and one that "
+                             "was not looked for is referenced" % (int_name(p[3][1]) or t, render(bad[0])[:50]))
+            else:
+                ctx.holds("PROBETAG", key, f.where(nn[4]), "probes and records %s" % (int_name(p[3][1]) or t), nontrivial=True)
+    ctx.floor("PROBETAG", 2, n, "(existence probes whose branch records a tag)")
+    return n
